@@ -90,6 +90,11 @@ Definition parallel_butterfly (threads : nat) (left right : list Fr) (wm : Fr) :
 (* ---- closed forms ---- *)
 Definition vanishing_eval (k : nat) (tau : Fr) : Fr := fpow_nat tau (Nat.pow 2 k) - 1.
 
+(* compute_vanishing_poly_over_coset(d): X^d - 1 on the coset g*H, as coded:
+   point_0 = g^d, point_{i+1} = point_i * (w^d) *)
+Definition vanishing_over_coset (k d : nat) : list Fr :=
+  map (fun s => fpow_nat coset_gen d * s - 1) (powers (fpow_nat (domain_gen k) d) (Nat.pow 2 k)).
+
 (* Lagrange basis polynomials of the domain evaluated at tau, by definition:
    L_i(tau) = Z_H(tau) * w^i / (n * (tau - w^i)) for tau outside H, else indicator *)
 Definition lagrange_all (k : nat) (tau : Fr) : list Fr :=
